@@ -33,7 +33,7 @@ SHAPES = scen.SHAPES_2D * 2 + scen.SHAPES_3D
 @st.composite
 def case_st(draw, shapes):
     sc = draw(scen.scenario_st(shapes, measure="maybe",
-                               weight_kinds=("none", "int", "dyadic", "zeroheavy", "zeroheavy")))
+                               weight_kinds=("none", "int", "dyadic", "zeroheavy", "tenths")))
     tx, inforce = draw(xforms.slice_insertions_st(sc, where="either", allow_malformed=False))
     sc["transforms"] = tx
     sc["insertions"] = inforce
